@@ -48,6 +48,13 @@ def perturbations(r, v):
             nv = resize(n)
             if nv is not None:
                 out.append((label, nv))
+    if k == 'INTEGER' and isinstance(v, int) and not isinstance(v, bool):
+        # serial application: the bounds of the ranges further down the reference chain
+        for c in r.rngs[1:]:
+            if c.lo is not None:
+                out += [('inner-lb-1', c.lo - 1), ('inner-lb', c.lo)]
+            if c.hi is not None:
+                out += [('inner-ub+1', c.hi + 1), ('inner-ub', c.hi)]
     if r.alpha is not None and isinstance(v, str) and k in ALPHA_OF and len(v) > 0:
         outside = [c for c in ALPHA_OF[k] if c not in r.alpha.chars()]
         if outside:
@@ -75,6 +82,7 @@ class C11(SpecValueCheck):
         p = super().profile(tier, shard)
         p.real_wc = False
         p.ref_constraint_rate = 55
+        p.stack_rate = 35
         p.via_ref_floor_rate = 70
         # weight the kinds that can carry an interpreted constraint
         p.kinds = p.kinds + ['INTEGER'] * 8 + ['OCTET STRING', 'BIT STRING', 'IA5String', 'VisibleString',
